@@ -13,6 +13,7 @@ import (
 	"strings"
 	"sync"
 	"testing"
+	"time"
 )
 
 const bitmapBits = 1 << 26 // linear-counting bitmap for distinct non-trivial cases (collisions undercount)
@@ -178,6 +179,13 @@ func Current(c any) {
 	}
 	rb, _ := json.Marshal(Replay{Property: S.Property, Message: "process died while running this case", Case: cb})
 	_ = os.WriteFile(path+".current", rb, 0o644)
+}
+
+// Budget returns a function that reports whether d has elapsed since Budget was called. Checks
+// use it to abandon a pathologically slow generated case (counted as a discard, never a verdict).
+func Budget(d time.Duration) func() bool {
+	t0 := time.Now()
+	return func() bool { return time.Since(t0) > d }
 }
 
 // Replay is the on-disk form of a failing (or saved) case.
